@@ -1,6 +1,7 @@
 (* Props/C20.v — property C20 (server-side caches are transparent), the
    change-range cache part.  Statements only. *)
 From YV Require Import Cache.ChangeStore Proofs.ChangeStoreProofs.
+From YV Require Import Cache.SnapCache Proofs.SnapCacheProofs.
 
 (* After ANY sequence of EnsureChanges (succeeding, or with a fetcher that fails on any of its
    calls: cop's CEnsureFail) / ExpandRange / ReplaceOrInsert calls and
@@ -50,3 +51,51 @@ Theorem C20_remove_by_actor_exact : forall s a c,
   In c (items (remove_by_actor s a)) <-> In c (items s) /\ ~ (c_actor c = a /\ c_clear c = false).
 Proof. exact remove_by_actor_spec. Qed.
 Print Assumptions C20_remove_by_actor_exact.
+
+(* ---- the snapshot cache (cached rebuilt documents) of packs.BuildInternalDocForServerSeq ---- *)
+Local Open Scope nat_scope.
+
+(* For every sequence of pushes, stored snapshots, cache purges/evictions and rebuilds at any
+   sequence up to the head — whatever the cache and the snapshot table hold by then — every
+   rebuild returned the document a replica that applied the stored changes 1..n one by one
+   holds (documents, changes and their application are arbitrary). *)
+Theorem C20_snapshot_cache_transparent : forall (doc chg : Type) (apply : doc -> chg -> doc) (init : doc) ops,
+  let s := fold_left (sstep doc chg apply init) ops (sys0 doc chg) in
+  forall n d, In (n, d) (s_out _ _ s) -> d = replay doc chg apply init (s_log _ _ s) n.
+Proof. exact snapshot_cache_transparent. Qed.
+Print Assumptions C20_snapshot_cache_transparent.
+
+(* one rebuild from any correct cache entry and any correct snapshot table *)
+Theorem C20_rebuild_from_cache_is_replay : forall doc chg apply init log snaps cache n r c,
+  Forall (entry_ok doc chg apply init log) snaps -> cache_ok doc chg apply init log cache ->
+  n <= length log ->
+  build doc chg apply init log snaps cache n = (r, c) ->
+  eseq r = n /\ edoc r = replay doc chg apply init log n /\ cache_ok doc chg apply init log c.
+Proof. exact build_transparent. Qed.
+Print Assumptions C20_rebuild_from_cache_is_replay.
+
+(* the store is read only after the base: with a usable cache entry no snapshot lookup happens
+   and the rows the entry covers are not read again *)
+Theorem C20_rebuild_reads_only_after_base : forall doc chg apply init log snaps cache n,
+  Forall (entry_ok doc chg apply init log) snaps -> cache_ok doc chg apply init log cache ->
+  let '(lk, from, to) := plan doc init snaps cache n in
+  to = n /\ 1 <= from <= S n /\
+  (lk = false -> exists e, cache = Some e /\ from = S (eseq e) /\ eseq e <= n).
+Proof. exact plan_range. Qed.
+Print Assumptions C20_rebuild_reads_only_after_base.
+
+(* FindClosestSnapshotInfo's contract as modelled: no stored snapshot at or below n is newer *)
+Theorem C20_closest_is_greatest : forall doc (snaps : list (entry doc)) n best e,
+  In e snaps -> eseq e <= n -> eseq e <= eseq (closest doc snaps n best).
+Proof. exact closest_greatest. Qed.
+Print Assumptions C20_closest_is_greatest.
+
+(* the guard `serverSeq < cached.ServerSeq` is needed: without it a rebuild at an older
+   sequence hands back the newer cached document *)
+Theorem C20_unguarded_cache_refuted :
+  exists (log : list nat) (n : nat) (cache : option (entry (list nat))),
+    cache_ok (list nat) nat snoc [] log cache /\ n <= length log /\
+    edoc (fst (build_unguarded (list nat) nat snoc [] log [] cache n))
+      <> replay (list nat) nat snoc [] log n.
+Proof. exact unguarded_refuted. Qed.
+Print Assumptions C20_unguarded_cache_refuted.
